@@ -83,13 +83,32 @@ theorem preserves_alloc' (W : Addr → Prop) (m : Mem) (o : Owner) (b : Body) : 
   pres_alloc (Ext.refl W m) o b
 
 theorem not_frozen_of_owner {m : Mem} {a : Addr} {o : Owner} (h : ownerOf m a = some o)
-    (h1 : o ≠ .lib) (h2 : ∀ b, o ≠ .bucket b) : frozenObj m a = false := by
+    (h1 : o ≠ .lib) (h2 : ∀ b, o ≠ .bucket b) (h3 : o ≠ .libset := by simp) : frozenObj m a = false := by
   unfold frozenObj
   rw [h]
   cases o with
   | lib => exact absurd rfl h1
+  | libset => exact absurd rfl h3
   | bucket b => exact absurd rfl (h2 b)
   | _ => rfl
+
+@[simp] theorem publish_length (m : Mem) (a : Addr) : (publish m a).length = m.length := by
+  unfold publish; split <;> simp
+
+theorem publish_get_ne {m : Mem} {a x : Addr} (h : a ≠ x) : (publish m a)[x]? = m[x]? := by
+  unfold publish; split
+  · simp [List.getElem?_set_ne h]
+  · rfl
+
+theorem pres_publish {W : Addr → Prop} {m0 m : Mem} (h : Ext W m0 m) {a : Addr}
+    (ha : Wr W m0 a) : Ext W m0 (publish m a) :=
+  ⟨by simpa using h.1, fun x hx hn => by
+    have hne : a ≠ x := by
+      intro e; subst e
+      rcases ha with ha | ha
+      · exact hn ha
+      · exact Nat.not_lt.mpr ha hx
+    rw [publish_get_ne hne, h.2 x hx hn]⟩
 
 /-- a documented transfer: writes (the owner tag of) a caller-owned object only -/
 theorem pres_freezeCaller {W : Addr → Prop} (m : Mem) (a : Addr)
